@@ -105,7 +105,33 @@ class Denoter:
         self.sum_binds = sum_binds_subscripts
         self.plus_literal = plus_literal  # a '+' subscript is always the literal alternative value
         self._memo: dict = {}
+        self._sum_memo: dict = {}
+        self._rel: dict = {}
         self.bound_stack: list[set] = []
+
+    def _relnames(self, expr):
+        """Every name an expression mentions (variables, subscripts, summation ranges)."""
+        hit = self._rel.get(id(expr))
+        if hit is not None and hit[0] is expr:
+            return hit[1]
+        from y0.dsl import Fraction as YF
+        from y0.dsl import Probability, Product, Sum
+
+        out = set()
+        if isinstance(expr, Probability):
+            for v in itt.chain(expr.children, expr.parents):
+                out.add(v.name)
+                out |= {i.name for i in getattr(v, "interventions", ()) or ()}
+        elif isinstance(expr, Product):
+            for e in expr.expressions:
+                out |= self._relnames(e)
+        elif isinstance(expr, Sum):
+            out |= {r.name for r in expr.ranges} | self._relnames(expr.expression)
+        elif isinstance(expr, YF):
+            out |= self._relnames(expr.numerator) | self._relnames(expr.denominator)
+        out = frozenset(out)
+        self._rel[id(expr)] = (expr, out)
+        return out
 
     # -- values -------------------------------------------------------------------
     def _star_value(self, name, star):
@@ -160,13 +186,26 @@ class Denoter:
             return out
         if isinstance(expr, Sum):
             names = sorted(r.name for r in expr.ranges)
+            # the value of a sum depends only on the names it mentions (minus the ones it binds itself): memoised, since
+            # nested sums are otherwise re-evaluated for every assignment of the enclosing ones
+            rel = self._relnames(expr)
+            own = set(names)
+            key = (id(expr), tuple(sorted((n, env[n]) for n in rel if n in env and n not in own)),
+                   tuple(sorted(n for n in bound if n in rel)),
+                   tuple(sorted((n, v) for n, v in self.do_env.items() if n in rel)))
+            hit = self._sum_memo.get(key)
+            if hit is not None and hit[0] is expr:
+                return hit[1]
             model = self.target
             total = Fraction(0)
-            inner_bound = frozenset(bound | set(names))
+            inner_bound = frozenset(bound | own)
             env2 = dict(env)
             for vals in itt.product(*[model.values(n) for n in names]):
                 env2.update(zip(names, vals))
                 total += self.value(expr.expression, env2, inner_bound)
+            if len(self._sum_memo) > 200000:
+                self._sum_memo.clear()
+            self._sum_memo[key] = (expr, total)
             return total
         if isinstance(expr, YF):
             d = self.value(expr.denominator, env, bound)
